@@ -24,7 +24,8 @@ RULE = ("catalogue part: every ordered pair and triple of units of every linear 
         "universe part: Hypothesis generates fresh universes (scaled chains, term-defined, derived-from-base units, "
         "alias units) and converts between their units; cross-type targets for the error clause. Oracle: "
         "amount*S(u)/S(v) on Fractions with S from the hand-written table / universe model (never the library's own "
-        "scale), plus round-trip, via-intermediate, equality, type and exactness clauses. Non-trivial = distinct units "
+        "scale), plus round-trip, via-intermediate, equality, type and exactness clauses; a quarter of the drawn "
+        "cases run with a bogus converter registered on the type. Non-trivial = distinct units "
         "with scale ratio != 1, or a cross-type target; distinct by (units, amount)")
 
 LIN = cat.LINEAR_TYPES
